@@ -305,7 +305,7 @@ class _NumericOperationsImpl(OperationsBlock):
 
     @validate_core
     def sinh(self, x):
-        return via_upcast(opx.sinh, [x], float_dtype=dtypes.float32)
+        return unary_op(x, opx.sinh, dtypes.float32)
 
     @validate_core
     def square(self, x):
